@@ -455,6 +455,28 @@ func structures() map[string]*descriptorpb.FileDescriptorProto {
 		{Name: str("Mid2"), Field: []*descriptorpb.FieldDescriptorProto{fld("name", 1, stringT)}},
 		{Name: str("Inner"), Field: []*descriptorpb.FieldDescriptorProto{fld("name", 1, stringT)}},
 	})
+	// an exposed oneof declared by a message that is flattened into its parent; the parent's own
+	// field numbers overlap the members' numbers with other kinds, or with the same kind
+	add("oneof-exposed-below-flatten", []*descriptorpb.DescriptorProto{
+		{Name: str("M"), Field: []*descriptorpb.FieldDescriptorProto{flat(fld("inner", 1, msgT("Inner"))), fld("other", 2, int32T)}},
+		{Name: str("Inner"), OneofDecl: []*descriptorpb.OneofDescriptorProto{exposed("choice", true)}, Field: []*descriptorpb.FieldDescriptorProto{inOneof(fld("a", 1, stringT), 0), inOneof(fld("b", 2, msgT("Sub")), 0), fld("label", 3, stringT)}},
+	})
+	add("oneof-exposed-below-flatten-same-numbers", []*descriptorpb.DescriptorProto{
+		{Name: str("M"), Field: []*descriptorpb.FieldDescriptorProto{fld("title", 1, stringT), flat(fld("inner", 4, msgT("Inner")))}},
+		{Name: str("Inner"), OneofDecl: []*descriptorpb.OneofDescriptorProto{exposed("choice", true)}, Field: []*descriptorpb.FieldDescriptorProto{inOneof(fld("a", 1, stringT), 0), fld("label", 3, stringT)}},
+	})
+	// reference cycles in which one member does not reflect (two flattened fields with the same
+	// member names): the partner is looked up after, and before, the failing one
+	for _, order := range []string{"failing-first", "failing-last"} {
+		bad := &descriptorpb.DescriptorProto{Name: str("M"), Field: []*descriptorpb.FieldDescriptorProto{fld("b", 1, msgT("B")), flat(fld("x", 2, msgT("Sub"))), flat(fld("y", 3, msgT("Sub")))}}
+		partner := &descriptorpb.DescriptorProto{Name: str("B"), Field: []*descriptorpb.FieldDescriptorProto{fld("m", 1, msgT("M")), fld("s", 2, stringT)}}
+		user := &descriptorpb.DescriptorProto{Name: str("User"), Field: []*descriptorpb.FieldDescriptorProto{fld("b", 1, msgT("B"))}}
+		if order == "failing-first" {
+			add("cycle-with-failing-member-"+order, []*descriptorpb.DescriptorProto{bad, partner, user})
+		} else {
+			add("cycle-with-failing-member-"+order, []*descriptorpb.DescriptorProto{user, partner, bad})
+		}
+	}
 	// every rule / list rule / info carrier the reflection can populate
 	{
 		opt := func(fd *descriptorpb.FieldDescriptorProto, as ...annot) *descriptorpb.FieldDescriptorProto {
